@@ -5,50 +5,59 @@
    the next quiescent point has released both halves of the connection.  "Observed" is logged by the
    harness pipes at the moment the library's read or write returned the end / the error.         *)
 EXTENDS DeliveryAbs, TraceCommon
-VARIABLES l, scen, viol, obs, how, relR, relW, lastFault, obsAtCall, incall, mayErr, faulted
-tvars == <<avars, l, scen, viol, obs, how, relR, relW, lastFault, obsAtCall, incall, mayErr, faulted>>
-lv == <<obs, how, relR, relW, lastFault, obsAtCall, incall, mayErr, faulted>>
+VARIABLES l, scen, viol, obs, how, relR, relW, lastFault, obsAtCall, incall, mayErr, faulted, final, super
+\* final: the scenario's last quiescent point has passed (the driver drops the socket next); super: connections superseded by a newer one of the same identity
+tvars == <<avars, l, scen, viol, obs, how, relR, relW, lastFault, obsAtCall, incall, mayErr, faulted, final, super>>
+lv == <<obs, how, relR, relW, lastFault, obsAtCall, incall, mayErr, faulted, final, super>>
 E == Rec[l]
 Flag(code) == Report(scen, code, l) /\ viol' = viol \cup {code}
 NoFlag == UNCHANGED viol
 Step(evname) == l <= NRec /\ E.ev = evname /\ l' = l + 1
-TInit == AInit /\ l = 1 /\ scen = 0 /\ viol = {} /\ obs = {} /\ how = EmptyMap /\ relR = {} /\ relW = {} /\ lastFault = "none" /\ obsAtCall = {} /\ incall = FALSE /\ mayErr = {} /\ faulted = {}
+TInit == AInit /\ l = 1 /\ scen = 0 /\ viol = {} /\ obs = {} /\ how = EmptyMap /\ relR = {} /\ relW = {} /\ lastFault = "none" /\ obsAtCall = {} /\ incall = FALSE /\ mayErr = {} /\ faulted = {} /\ final = FALSE /\ super = {}
 TReset == Step("reset") /\ scen' = E.scen /\ stype' = E.sock /\ conn' = {} /\ ident' = <<>> /\ pend' = <<>> /\ cut' = <<>> /\ credit' = 0
-          /\ obs' = {} /\ how' = EmptyMap /\ relR' = {} /\ relW' = {} /\ lastFault' = "none" /\ obsAtCall' = {} /\ incall' = FALSE /\ mayErr' = {} /\ faulted' = {} /\ UNCHANGED viol
-TAttachRet == Step("attach_ret") /\ UNCHANGED <<scen, lv>> /\ NoFlag /\ (IF E.res = "ok" THEN DoAdmit(E.c, E.id) ELSE UNCHANGED avars)
+          /\ obs' = {} /\ how' = EmptyMap /\ relR' = {} /\ relW' = {} /\ lastFault' = "none" /\ obsAtCall' = {} /\ incall' = FALSE /\ mayErr' = {} /\ faulted' = {} /\ final' = FALSE /\ super' = {} /\ UNCHANGED viol
+TAttachRet == Step("attach_ret") /\ UNCHANGED <<scen, obs, how, relR, relW, lastFault, obsAtCall, incall, mayErr, faulted, final>> /\ NoFlag /\
+   (IF E.res = "ok" THEN DoAdmit(E.c, E.id) /\ super' = (IF Fld(E, "auto", TRUE) THEN super ELSE super \cup {c \in conn : ident[c] = E.id})
+    ELSE UNCHANGED <<avars, super>>)
 TWrote == Step("peer_wrote") /\ UNCHANGED <<scen, lv>> /\ NoFlag /\ DoWrote(E.c, E.m)
 \* a connection that ends may surface ONE recv error, however many fault events (close, reset, broken pipe) it suffers
 Allow(c) == mayErr' = (IF c \in faulted THEN mayErr ELSE mayErr \cup {c}) /\ faulted' = faulted \cup {c}
-TBytes == Step("peer_bytes") /\ UNCHANGED <<stype, conn, ident, pend, cut, credit, scen, obs, how, relR, relW, lastFault, obsAtCall, incall>> /\ Allow(E.c) /\ NoFlag
-TCut == Step("peer_cut") /\ UNCHANGED <<scen, obs, how, relR, relW, obsAtCall, incall>> /\ NoFlag /\ DoCut(E.c, IF E.kind = "eof" THEN "eof" ELSE "err") /\ lastFault' = E.kind /\ Allow(E.c)
-TPipe == Step("pipe") /\ UNCHANGED <<scen, obs, how, relR, relW, obsAtCall, incall>> /\ NoFlag /\
+TBytes == Step("peer_bytes") /\ UNCHANGED <<stype, conn, ident, pend, cut, credit, scen, obs, how, relR, relW, lastFault, obsAtCall, incall, final, super>> /\ Allow(E.c) /\ NoFlag
+TCut == Step("peer_cut") /\ UNCHANGED <<scen, obs, how, relR, relW, obsAtCall, incall, final, super>> /\ NoFlag /\ DoCut(E.c, IF E.kind = "eof" THEN "eof" ELSE "err") /\ lastFault' = E.kind /\ Allow(E.c)
+TPipe == Step("pipe") /\ UNCHANGED <<scen, obs, how, relR, relW, obsAtCall, incall, final, super>> /\ NoFlag /\
    IF E.what = "break" THEN DoCut(E.c, "err") /\ lastFault' = "wbreak" /\ Allow(E.c) ELSE UNCHANGED <<avars, lastFault, mayErr, faulted>>
-TObserved == Step("observed") /\ UNCHANGED <<avars, scen, relR, relW, lastFault, obsAtCall, incall, mayErr, faulted>> /\ NoFlag
+TObserved == Step("observed") /\ UNCHANGED <<avars, scen, relR, relW, lastFault, obsAtCall, incall, mayErr, faulted, final, super>> /\ NoFlag
    /\ obs' = obs \cup {E.c} /\ how' = IF E.c \in DOMAIN how THEN how ELSE Put(how, E.c, E.how)
-TReleased == Step("released") /\ UNCHANGED <<avars, scen, obs, how, lastFault, obsAtCall, incall, mayErr, faulted>> /\ NoFlag
+\* the socket lets go of a connection: demanded after its end was observed, fine when a newer connection of the same identity
+\* superseded it or the scenario is over (the driver drops the socket) - but a connection nothing happened to must stay
+TReleased == Step("released") /\ UNCHANGED <<avars, scen, obs, how, lastFault, obsAtCall, incall, mayErr, faulted, final, super>>
    /\ relR' = (IF E.half = "r" THEN relR \cup {E.c} ELSE relR) /\ relW' = (IF E.half = "w" THEN relW \cup {E.c} ELSE relW)
-TRecvRet == Step("recv_ret") /\ UNCHANGED <<avars, scen, obs, how, relR, relW, lastFault, obsAtCall, incall, faulted>> /\
+   /\ IF E.c \in conn /\ E.c \notin faulted /\ E.c \notin super /\ ~final THEN Flag("C16/healthy-connection-released:" \o stype) ELSE NoFlag
+TRecvRet == Step("recv_ret") /\ UNCHANGED <<avars, scen, obs, how, relR, relW, lastFault, obsAtCall, incall, faulted, final, super>> /\
    IF E.res = "err" THEN
       (IF mayErr # {} THEN mayErr' = mayErr \ {CHOOSE c \in mayErr : TRUE} /\ NoFlag
        ELSE IF \E c \in conn : Pend(c) # <<>> /\ ~WellFormed(stype, Head(Pend(c))) THEN UNCHANGED mayErr /\ NoFlag
        ELSE IF faulted # {} THEN UNCHANGED mayErr /\ Flag("C16/error-repeated:" \o stype \o ":" \o lastFault)
        ELSE UNCHANGED mayErr /\ NoFlag)
    ELSE UNCHANGED mayErr /\ NoFlag
-TSendCall == Step("send_call") /\ UNCHANGED <<avars, scen, obs, how, relR, relW, lastFault, mayErr, faulted>> /\ NoFlag /\ obsAtCall' = obs /\ incall' = TRUE
-TSendRet == Step("send_ret") /\ UNCHANGED <<avars, scen, obs, how, relR, relW, lastFault, obsAtCall, mayErr, faulted>> /\ NoFlag /\ incall' = FALSE
+TSendCall == Step("send_call") /\ UNCHANGED <<avars, scen, obs, how, relR, relW, lastFault, mayErr, faulted, final, super>> /\ NoFlag /\ obsAtCall' = obs /\ incall' = TRUE
+TSendRet == Step("send_ret") /\ UNCHANGED <<avars, scen, obs, how, relR, relW, lastFault, obsAtCall, mayErr, faulted, final, super>> /\ NoFlag /\ incall' = FALSE
 \* an application message written to a connection whose end the socket had already observed when the send began
 TWire == Step("wire") /\ UNCHANGED <<avars, scen, lv>> /\
    IF E.k = "msg" /\ incall /\ E.c \in obsAtCall THEN Flag("C16/send-routed-to-dead-peer:" \o stype \o ":" \o how[E.c]) ELSE NoFlag
-TQuiescent == Step("quiescent") /\ UNCHANGED <<avars, scen, lv>> /\
+TQuiescent == Step("quiescent") /\ UNCHANGED <<avars, scen, obs, how, relR, relW, lastFault, obsAtCall, incall, mayErr, faulted, super>> /\ final' = (final \/ Fld(E, "final", FALSE)) /\
    IF Fld(E, "pending", "none") \in {"send", "sub"} THEN NoFlag
    ELSE IF \E c \in obs : c \notin relW THEN LET c == CHOOSE x \in obs : x \notin relW IN Flag("C16/not-released:w:" \o stype \o ":" \o how[c])
    ELSE IF \E c \in obs : c \notin relR THEN LET c == CHOOSE x \in obs : x \notin relR IN Flag("C16/not-released:r:" \o stype \o ":" \o how[c])
    ELSE NoFlag
 TPanic == Step("panic") /\ UNCHANGED <<avars, scen, lv>> /\ Flag("C03/panic")
-Ignored == {"peer_part", "attach_call", "attach_pending", "recv_call", "recv_pending", "recv_dropped", "send_pending", "send_dropped", "end", "expect_wire", "sub_call", "sub_ret",
+\* a connection announces the identity of an older one: from the moment its registration starts the older one may be let go
+TAttachCall == Step("attach_call") /\ UNCHANGED <<avars, scen, obs, how, relR, relW, lastFault, obsAtCall, incall, mayErr, faulted, final>> /\ NoFlag /\
+   super' = (IF Has(E, "announced") THEN super \cup {c \in conn : ident[c] = E.announced} ELSE super)
+Ignored == {"peer_part", "attach_pending", "recv_call", "recv_pending", "recv_dropped", "send_pending", "send_dropped", "end", "expect_wire", "sub_call", "sub_ret",
             "sub_pending", "harness_error"}
 TIgnore == l <= NRec /\ E.ev \in Ignored /\ l' = l + 1 /\ UNCHANGED <<avars, scen, lv>> /\ NoFlag
-TNext == TReset \/ TAttachRet \/ TWrote \/ TBytes \/ TCut \/ TPipe \/ TObserved \/ TReleased \/ TRecvRet \/ TSendCall \/ TSendRet \/ TWire \/ TQuiescent \/ TPanic \/ TIgnore
+TNext == TReset \/ TAttachCall \/ TAttachRet \/ TWrote \/ TBytes \/ TCut \/ TPipe \/ TObserved \/ TReleased \/ TRecvRet \/ TSendCall \/ TSendRet \/ TWire \/ TQuiescent \/ TPanic \/ TIgnore
 TSpec == TInit /\ [][TNext]_tvars
 Accepted == Consumed
 =============================================================================
